@@ -127,7 +127,8 @@ Prepare(tb, o) ==
                 seq == PlayableSeq(t1.sm)
             IN IF (t1.count = 0 /\ Len(seq) < t1.opt.initial) \/ Len(seq) < t1.opt.min THEN Insufficient(t1)
                ELSE LET t2 == WithIdx(t1, seq)
-                        st == TGStart(GameCfg(t2, seq, o.meta), o.pwNew)
+                        \* (no oracle for a new hand - the recorded table shows none: evaluated like a start the engine refuses)
+                        st == IF o.meta = NULL THEN TNO(NewTG, "start") ELSE TGStart(GameCfg(t2, seq, o.meta), o.pwNew)
                     IN IF ~st.ok THEN [t2 EXCEPT !.tg = NewTG, !.status = "pending"]     \* the engine refused: the loop tries again
                        ELSE [t2 EXCEPT !.tg = st.tg, !.hasG = TRUE, !.count = @ + 1, !.status = "playing"]
 
